@@ -32,7 +32,7 @@ func main() {
 		check(run, c)
 		return
 	}
-	sets := run.Pick(3000, 600000)
+	sets := run.Pick(3000, 3000000)
 	const per = 50
 	run.Parallel(sets/per, func(batch int) {
 		r := run.Rand(uint64(batch))
